@@ -221,7 +221,7 @@ impl Mon {
         };
         if !allowed {
             self.fail(
-                &format!("C09:{}-in-{:?}", name, st).to_lowercase(),
+                &format!("C09:{}-in-{}", name, format!("{:?}", st).to_lowercase()),
                 format!("writer {}.{}: `{}` called in protocol state {:?} (previous terminal call: {:?})", toi, idx, name, st, prev),
             );
         }
@@ -290,7 +290,7 @@ impl ObjectWriter for Writer {
             (w.toi, w.idx, w.st, w.plan.open_ok)
         };
         if st != PS::Idle {
-            m.fail(&format!("C09:open-in-{:?}", st).to_lowercase(), format!("writer {}.{}: `open` called in protocol state {:?}", toi, idx, st));
+            m.fail(&format!("C09:open-in-{}", format!("{:?}", st).to_lowercase()), format!("writer {}.{}: `open` called in protocol state {:?}", toi, idx, st));
         }
         m.writers[self.id].st = if ok { PS::Opened } else { PS::Failed };
         m.events.push((toi, idx, Some(format!("O={}", if ok { "ok" } else { "err" }))));
@@ -308,7 +308,7 @@ impl ObjectWriter for Writer {
             (w.toi, w.idx, w.st, w.cenc_null, w.plan.fail_at != Some(w.nwrites))
         };
         if st != PS::Opened {
-            m.fail(&format!("C09:write-in-{:?}", st).to_lowercase(), format!("writer {}.{}: `write` called in protocol state {:?}", toi, idx, st));
+            m.fail(&format!("C09:write-in-{}", format!("{:?}", st).to_lowercase()), format!("writer {}.{}: `write` called in protocol state {:?}", toi, idx, st));
         }
         m.writers[self.id].nwrites += 1;
         if ok {
@@ -417,9 +417,14 @@ impl Inner {
         keys.dedup();
         let body: Vec<String> = keys
             .iter()
-            .map(|k| {
+            .filter_map(|k| {
+                // writers whose calls of this op are all suppressed (writes with cenc != null) are not shown
                 let l: Vec<String> = evs.iter().filter(|e| (e.0, e.1) == *k).filter_map(|e| e.2.clone()).collect();
-                format!("{}.{}:{}", k.0, k.1, l.join(","))
+                if l.is_empty() {
+                    None
+                } else {
+                    Some(format!("{}.{}:{}", k.0, k.1, l.join(",")))
+                }
             })
             .collect();
         let (no, ne) = match self.receiver.as_ref() {
